@@ -561,7 +561,7 @@ func init() {
 	lib.Register(&lib.Property{
 		ID:          "C16",
 		Level:       "fault_enumeration",
-		Rule:        "builds of 3 files + a trailing empty file / 300 small files / 1300 small files / 2500 directories; damage none / first file / last file only / every entry / exactly 1023, 1024, 1025 wound-producing entries (around the 1024-slot wound channel); consumers fail-fast, wounds file (good path, path in a missing directory, /dev/full), printer, healer (good archive, missing archive, archive whose 1st / 2nd / last file entry is corrupted); cancellation before Validate, at the 1st/2nd directory check, after the directory pass, at the main select and at file start for every i (3-file build; every 15th file of the 300-file build in quick, every file in thorough), after the last file was queued, before the wound channel is closed, and from inside Consumer.OnProgress at the 1st/2nd/5th callback; schedules none / seeded perturbation at the verif hooks; GOMAXPROCS 1/16; a failing file worker (signature one hash short) under every consumer kind; after a cancelled fail-fast run the same context validates once more. Oracle: (1) the call returned - decided by a quiescence detector over goroutine dumps, (2) fail-fast err == nil implies the independent tree comparison finds no deviation. distinct = distinct (build, damage, consumer, cancel class, schedule, GOMAXPROCS)",
+		Rule:        "builds of 3 files + a trailing empty file / 300 small files / 1300 small files / 2500 directories / one 96 MiB file (1536 blocks, more than the wounds channel holds) damaged in its first block before a small file, with the consumers that return at the first wound; damage none / first file / last file only / every entry / exactly 1023, 1024, 1025 wound-producing entries (around the 1024-slot wound channel); consumers fail-fast, wounds file (good path, path in a missing directory, /dev/full), printer, healer (good archive, missing archive, archive whose 1st / 2nd / last file entry is corrupted); cancellation before Validate, at the 1st/2nd directory check, after the directory pass, at the main select and at file start for every i (3-file build; every 15th file of the 300-file build in quick, every file in thorough), after the last file was queued, before the wound channel is closed, and from inside Consumer.OnProgress at the 1st/2nd/5th callback; schedules none / seeded perturbation at the verif hooks; GOMAXPROCS 1/16; a failing file worker (signature one hash short) under every consumer kind; after a cancelled fail-fast run the same context validates once more. Oracle: (1) the call returned - decided by a quiescence detector over goroutine dumps, (2) fail-fast err == nil implies the independent tree comparison finds no deviation. distinct = distinct (build, damage, consumer, cancel class, schedule, GOMAXPROCS)",
 		Assumptions: []string{"goroutines left alive after return are reported in the evidence, not judged", "an error return on a valid directory is allowed when the run was cancelled"},
 		Flavors: func(tier string) []string {
 			if tier == "thorough" {
